@@ -47,6 +47,12 @@ class Gen:
                 else:                                   # unlabelled: the target is the visible word, keep it unique
                     self.n += 1
                     out.append(("link", "Tq%dz" % self.n, None))
+            elif k < 0.80 and allow_link:
+                # a leading colon makes a visible link of what would otherwise be a language link, a category or an image
+                pre = r.choice(["fr", "de", "es", "ja", "wikt", "commons", "Category", "Image", "File", "Talk", "User", "Help"])
+                if pre in ("fr", "de", "es", "ja") and r.random() < 0.0:
+                    pass
+                out.append(("link", ":%s:Tk%d" % (pre, r.randint(1, 99)), self.words(1, 2)))
             elif k < 0.86 and allow_link:
                 out.append(("ext", "http://ex%d.org/p" % r.randint(1, 9), self.words(1, 2)))
             elif k < 0.93 and allow_ref:
@@ -95,6 +101,16 @@ class Gen:
             ri = r.randrange(nrows)
             paras = [("para", self.words(18, 28)) for _ in range(r.randint(4, 6))]
             rows[ri][-1] = (rows[ri][-1][0], {"blocks": paras})
+        elif k < 0.33:
+            ncols = 3
+            rows = [[(False, self.inlines(1, allow_ref=False), 'colspan="2" rowspan="2"'), (False, self.inlines(1, allow_ref=False))],
+                    [(False, self.inlines(1, allow_ref=False))],
+                    [(False, self.inlines(1, allow_ref=False)) for _ in range(3)]]
+        elif k < 0.37:
+            ri = r.randrange(nrows)
+            if len(rows[ri]) >= 2:      # a cell spanning two columns, its row one cell shorter
+                rows[ri] = [(rows[ri][0][0], rows[ri][0][1], 'colspan="2"')] + rows[ri][2:] + ([rows[ri][1]] if ncols > 2 else [])
+                rows[ri] = rows[ri][:ncols - 1]
         cap = self.words(1, 2) if r.random() < 0.3 else None
         return ("table", cap, rows)
 
@@ -108,6 +124,10 @@ class Gen:
     def block(self, depth):
         r = self.rng
         k = r.random()
+        if k < 0.03:
+            # one italic span holding many bold spans, all on one line and all written with apostrophes
+            n = r.choice([3, 9, 17, 18, 24, 40])
+            return ("para", [("manybold", [(self.word(), self.word()) for _ in range(n)], self.word())])
         if k < 0.45:
             return ("para", self.inlines(2))
         if k < 0.52:
@@ -137,6 +157,33 @@ class Gen:
 
 # ----------------------------------------------------------------------------- rendering
 
+def benign_attrs():
+    """class/id values that are NOT documented removal triggers: ordinary classes, and near misses of the cleaner's own
+    trigger lists (a trigger with a suffix, the single words and pairs of a multi-word match) read from the live cleaner."""
+    global _BENIGN
+    if _BENIGN is None:
+        out = ["wikitable", "wikitable sortable", "toccolours", "plainlinks", "prettytable", "floatright", "vcard", "infobox vcard", "nowraplinks"]
+        try:
+            from mwlib.parser import nodes
+            from mwlib.parser.treecleaner import TreeCleaner
+
+            tc = TreeCleaner(nodes.Article(), save_reports=False)
+            triggers = set(tc.no_display_classes) | set(tc.no_display_class_matches)
+            for t in tc.no_display_classes[:6]:
+                out += [t + "x", "x" + t]
+            for m in tc.no_display_class_matches:
+                ws = m.split()
+                out += ws + [" ".join(ws[:2]), " ".join(ws[1:]), m + " x"]
+            out = [o for o in out if o not in triggers and not (set(o.split()) & set(tc.no_display_classes))]
+        except Exception:  # noqa: BLE001
+            pass
+        _BENIGN = out
+    return _BENIGN
+
+
+_BENIGN = None
+
+
 class Render:
     """wikitext with equivalent spellings chosen at random (''' vs <b>, one cell per line vs ||, blank
     lines, trailing blanks)."""
@@ -165,13 +212,21 @@ class Render:
                 else:
                     form = "<%s>%%s</%s>" % (st, st)
                 out.append(form % self.inl(x[2], quoted or form.startswith("'")))
+            elif k == "manybold":
+                out.append("''" + " ".join("'''%s''' %s" % (b, y) for b, y in x[1]) + " " + x[2] + "''")
             elif k == "link":
                 out.append("[[%s|%s]]" % (x[1], self.inl(x[2], quoted)) if x[2] is not None else "[[%s]]" % x[1])
             elif k == "ext":
                 out.append("[%s %s]" % (x[1], self.inl(x[2], quoted)))
             elif k == "ref":
                 out.append("<ref>%s</ref>" % self.inl(x[1], quoted))
-        return " ".join(out)
+        res = ""
+        for i, part in enumerate(out):
+            if i and not (part.startswith("''") and out[i - 1].endswith("''") and not part.startswith("''''")
+                          and (out[i - 1].endswith("'''") != part.startswith("'''")) and self.ch(True, False)):
+                res += " "
+            res += part
+        return res
 
     def lst(self, node, prefix=""):
         _, kind, items = node
@@ -185,7 +240,8 @@ class Render:
 
     def table(self, node):
         _, cap, rows = node
-        lines = ["{|" + self.ch(' class="wikitable"', "", ' border="1"')]
+        lines = ["{|" + self.ch(' class="wikitable"', "", ' border="1"', ' class="%s"' % self.rng.choice(benign_attrs()),
+                                ' id="%s"' % self.rng.choice(benign_attrs()).split()[0])]
         if cap is not None:
             lines.append("|+ " + self.inl(cap))
         for ri, row in enumerate(rows):
@@ -193,11 +249,14 @@ class Render:
                 lines.append("|-")
             header = row[0][0]
             sep = "!" if header else "|"
-            blocky = any(isinstance(c[1], dict) for c in row)
+            blocky = any(isinstance(c[1], dict) or len(c) > 2 for c in row)
             if not blocky and self.ch(True, False):
                 lines.append(sep + " " + (" " + sep + sep + " ").join(self.inl(c[1]) for c in row))
             else:
                 for c in row:
+                    if len(c) > 2:
+                        lines.append(sep + " " + c[2] + " | " + self.inl(c[1]))
+                        continue
                     if isinstance(c[1], dict):
                         lines.append(sep)
                         for bi, b in enumerate(c[1]["blocks"]):
@@ -212,6 +271,9 @@ class Render:
     def block(self, b):
         k = b[0]
         if k == "para":
+            if self.variants and self.rng.random() < 0.06:      # a paragraph inside a div/span with an ordinary class
+                tag = self.rng.choice(["div", "span"])
+                return ['<%s class="%s">%s</%s>' % (tag, self.rng.choice(benign_attrs()), self.inl(b[1]), tag)]
             return [self.inl(b[1])]
         if k == "list":
             return self.lst(b)
@@ -234,8 +296,10 @@ class Render:
         _, level, title, blocks, subs = s
         eq = "=" * level
         out = [eq + self.ch(" ", "") + self.inl(title) + self.ch(" ", "") + eq, ""]
-        for b in blocks:
-            out += self.block(b) + [""] * self.ch(1, 1, 2)
+        for bi, b in enumerate(blocks):
+            nxt = blocks[bi + 1] if bi + 1 < len(blocks) else None
+            tight = b[0] in ("list", "dl") and nxt is not None and nxt[0] == "para" and self.ch(True, False, False)
+            out += self.block(b) + ([] if tight else [""] * self.ch(1, 1, 2))
         for sub in subs:
             out += self.section(sub)
         return out
@@ -266,9 +330,19 @@ def denote(d):
                 c = dict(ctx)
                 c["styles"] = ctx["styles"] | {x[1]}
                 inl(x[2], c)
+            elif k == "manybold":
+                ci = dict(ctx)
+                ci["styles"] = ctx["styles"] | {"i"}
+                cb = dict(ctx)
+                cb["styles"] = ctx["styles"] | {"i", "b"}
+                for b, y in x[1]:
+                    out.append((b, dict(cb)))
+                    out.append((y, dict(ci)))
+                out.append((x[2], dict(ci)))
             elif k == "link":
                 c = dict(ctx)
-                c["link"] = x[1]
+                c["link"] = x[1].lstrip(":")
+                c["linkvis"] = True
                 if x[2] is not None:
                     inl(x[2], c)
                 else:
@@ -312,7 +386,8 @@ def denote(d):
                 c["caption"] = True
                 inl(cap, c)
             for ri, row in enumerate(rows):
-                for ci, (hdr, il) in enumerate(row):
+                for ci, cellspec in enumerate(row):
+                    hdr, il = cellspec[0], cellspec[1]
                     c = dict(ctx)
                     c["cell"] = (ri, ci, hdr)
                     if isinstance(il, dict):
@@ -327,7 +402,7 @@ def denote(d):
                 inl(line, c)
 
     base = dict(section=(), lists=(), cell=None, caption=False, styles=frozenset(), link=None, ext=None, ref=False, pre=False,
-                heading=False, dl=None)
+                heading=False, dl=None, linkvis=None)
 
     def section(s, ctx):
         _, level, title, blocks, subs = s
@@ -436,7 +511,8 @@ def read_tree(root):
                 c["styles"] = ctx["styles"] | {st}
         elif name in ("ArticleLink", "SpecialLink", "NamespaceLink", "InterwikiLink", "LangLink", "CategoryLink"):
             c = dict(ctx)
-            c["link"] = n.target
+            c["link"] = (n.target or "").lstrip(":")
+            c["linkvis"] = name not in ("LangLink", "CategoryLink")      # those two are not shown where they stand
             if not n.children:
                 for w in (n.target or "").split():
                     out.append((w, dict(c)))
@@ -456,7 +532,7 @@ def read_tree(root):
             walk(ch, c, table_state)
 
     base = dict(section=(), lists=(), cell=None, caption=False, styles=frozenset(), link=None, ext=None, ref=False, pre=False,
-                heading=False, dl=None)
+                heading=False, dl=None, linkvis=None)
     walk(root, base, None)
     return out
 
